@@ -125,17 +125,15 @@ class _exact_for(Contract):
 
 
 def _gsrc_inv(found, gsrc, A, items, t):
-    """found/gsrc built so far enumerate A ∩ [0,t) in storage order"""
-    a, b, i = z3.Int(fresh_name("a")), z3.Int(fresh_name("b")), z3.Int(fresh_name("i"))
+    """found/gsrc built so far enumerate A ∩ [0,t) in storage order: position i sits at place cnt(A, i)"""
+    a, i = z3.Int(fresh_name("a")), z3.Int(fresh_name("i"))
     n = l_len(gsrc)
     return [
-        ("ghost_len", l_len(found) == n),
-        ("ghost_sound", forall([a], z3.Implies(z3.And(0 <= a, a < n), z3.And(0 <= l_at(gsrc, a), l_at(gsrc, a) < t, z3.Select(A, l_at(gsrc, a)),
+        ("ghost_len", z3.And(l_len(found) == n, n == cnt(A, t))),
+        ("ghost_sound", forall([a], z3.Implies(z3.And(0 <= a, a < n), z3.And(0 <= l_at(gsrc, a), l_at(gsrc, a) < t, z3.Select(A, l_at(gsrc, a)), cnt(A, l_at(gsrc, a)) == a,
                                                                         l_at(found, a) == dec(l_at(items, l_at(gsrc, a))))),
                                patterns=[l_at(gsrc, a), l_at(found, a)])),
-        ("ghost_ascending", forall([a, b], z3.Implies(z3.And(0 <= a, a < b, b < n), l_at(gsrc, a) < l_at(gsrc, b)), patterns=[z3.MultiPattern(l_at(gsrc, a), l_at(gsrc, b))])),
-        ("ghost_complete", forall([i], z3.Implies(z3.And(0 <= i, i < t, z3.Select(A, i), S.Tr(i)), z3.Exists([a], z3.And(0 <= a, a < n, l_at(gsrc, a) == i))),
-                                  patterns=[z3.Select(A, i)])),
+        ("ghost_complete", forall([i], z3.Implies(z3.And(0 <= i, i < t, z3.Select(A, i)), l_at(gsrc, cnt(A, i)) == i), patterns=[z3.Select(A, i)])),
     ]
 
 
@@ -152,7 +150,7 @@ class _search(Contract):
     ghost_vars = ("gsrc",)
     ghost_init = "gsrc = []"
     ghost_after = [("found_points.append(self._storage", "gsrc.append(i)"), ("found_points.append(_point)", "gsrc.append(_t)")]
-    witness_sig = {"src": ([TInt], TInt)}
+    witness_sig = {"src": ([TInt], TInt), "rank": ([TInt], TInt)}
 
     @staticmethod
     def requires(c):
@@ -166,10 +164,11 @@ class _search(Contract):
     @staticmethod
     def witness(c):
         g = c.gsrc.t
+        A = c.Asel.t
         ls = c.ghost.get("last_sort")
         if ls is not None:
-            return {"src": lambda a: l_at(g, ls["pi"](a))}
-        return {"src": lambda a: l_at(g, a)}
+            return {"src": lambda a: l_at(g, ls["pi"](a)), "rank": lambda i: ls["pinv"](cnt(A, i))}
+        return {"src": lambda a: l_at(g, a), "rank": lambda i: cnt(A, i)}
 
     @staticmethod
     def lemmas(c):
@@ -181,7 +180,7 @@ class _search(Contract):
         src = c.wit["src"]
         items = c.old.self.t["_storage"].t["items"].t
         order = z3.If(c.sorted.t, in_stable_time_order(R, src, l_len(R)), in_storage_order(src, l_len(R)))
-        return enumerates(R, src, c.Asel.t, items) + [("order", order)] + after_read(c) + storage_unchanged(c)
+        return enumerates(R, src, c.wit["rank"], c.Asel.t, items) + [("order", order)] + after_read(c) + storage_unchanged(c)
 
     @staticmethod
     def _inv_index(c):
@@ -189,7 +188,7 @@ class _search(Contract):
         items = c.self.t["_storage"].t["items"].t
         t = c.loop("for i, item in enumerate(self._storage)").t
         x = z3.Int(fresh_name("x"))
-        return [("j_counts", z3.And(c.j.t == l_len(c.gsrc.t), c.j.t == cnt(c.Asel.t, t))),
+        return [("j_counts", c.j.t == l_len(c.gsrc.t)),
                 ("index_answer_is_selection", I == c.Asel.t),
                 ] + _gsrc_inv(c.found_points.t, c.gsrc.t, c.Asel.t, items, t) + after_read(c)
 
@@ -313,3 +312,178 @@ class _all(Contract):
             ("no_duplicates", forall([a, b], z3.Implies(z3.And(0 <= a, a < b, b < n), src(a) != src(b)), patterns=[z3.MultiPattern(src(a), src(b))])),
             ("order", order),
         ] + after_read(c) + storage_unchanged(c)
+
+
+def dbinv_no_temp(db):
+    return [x for x in dbinv(db) if x[0] != "temp_empty"]
+
+
+@contract(_TF + "_reset_database")
+class _reset_database(Contract):
+    """C02: remove_all leaves an empty storage and an index that is empty-and-valid (auto_index) or invalid."""
+    params = dict(self=DB)
+    modifies = ("_storage", "_index", "_measurements")
+
+    @staticmethod
+    def ensures(c):
+        return [("storage_empty", l_len(c.self.t["_storage"].t["items"].t) == 0),
+                ("temp_untouched", c.self.t["_storage"].t["temp"].t == c.old.self.t["_storage"].t["temp"].t),
+                ("index_valid_iff_auto", c.self.t["_index"].t["_valid"].t == c.self.t["_auto_index"].t)] + dbinv_no_temp(c.self)
+
+
+def removed_view(items1, items0, A):
+    """items1 is items0 without the positions in A, order preserved (C02 whole-view postcondition)."""
+    i = z3.Int(fresh_name("i"))
+    n = l_len(items0)
+    return [
+        ("length", l_len(items1) == n - cnt(A, n)),
+        ("survivors_unmodified_in_order", forall([i], z3.Implies(z3.And(0 <= i, i < n, z3.Not(z3.Select(A, i))), l_at(items1, i - cnt(A, i)) == l_at(items0, i)),
+                                                 patterns=[l_at(items0, i), z3.Select(A, i)])),
+    ]
+
+
+@contract(_TF + "_remove_helper")
+class _remove_helper(Contract):
+    """C02: exactly the selected points are deleted; every other point is kept, unmodified, in order."""
+    params = dict(self=DB, query=Q, measurement=OStr)
+    defaults = dict(measurement=NONE_STR)
+    ret = TInt
+    modifies = ("_storage", "_index", "_measurements")
+    theories = ("queries", "dbqueries", "count", "count_lemmas", "count_lemmas2")
+    locals = dict(removed_items=SInt)
+    ghost_after = [("index_rst = self._index.search", "__cut__('index_is_selection')"),
+                   ("for i, item in enumerate(self._storage)", "__cut__('removed_is_selection')")]
+    cuts = {"index_is_selection": lambda c: [("sets_equal", c.index_rst.t["_items"].t == c.Asel.t)],
+            "removed_is_selection": lambda c: [("sets_equal", c.removed_items.t == c.Asel.t)]}
+
+    @staticmethod
+    def requires(c):
+        return dbinv(c.self) + _wfquery(c) + [("index_valid_when_auto", z3.Implies(c.self.t["_auto_index"].t, c.self.t["_index"].t["_valid"].t))]
+
+    @staticmethod
+    def ghost_defs(c):
+        A, facts = selected_set(c.self, c.query, c.measurement)
+        return {"Asel": (A, facts)}
+
+    @staticmethod
+    def lemmas(c):
+        return [("card_is_cnt", card_is_cnt(c.Asel.t, l_len(c.old.self.t["_storage"].t["items"].t)))]
+
+    @staticmethod
+    def ensures(c):
+        items0 = c.old.self.t["_storage"].t["items"].t
+        items1 = c.self.t["_storage"].t["items"].t
+        A = c.Asel.t
+        return [("returns_number_selected", c.result.t == card(A)),
+                ("nothing_selected_changes_nothing", z3.Implies(card(A) == 0, items1 == items0))] + removed_view(items1, items0, A) + dbinv_no_temp(c.self)
+
+    @staticmethod
+    def _common(c, t):
+        A = c.Asel.t
+        items = c.old.self.t["_storage"].t["items"].t
+        stg = c.self.t["_storage"].t
+        temp = stg["temp"].t
+        i, x = z3.Int(fresh_name("i")), z3.Int(fresh_name("x"))
+        return [
+            ("primary_untouched", z3.And(stg["items"].t == items, c.self.t["_index"].t["_valid"].t == c.old.self.t["_index"].t["_valid"].t)),
+            ("keep_count", z3.And(c.keep_count.t == t - cnt(A, t), l_len(temp) == c.keep_count.t)),
+            ("removed_so_far", forall([x], z3.Select(c.removed_items.t, x) == z3.And(0 <= x, x < t, z3.Select(A, x)), patterns=[z3.Select(c.removed_items.t, x)])),
+            ("kept_rows", forall([i], z3.Implies(z3.And(0 <= i, i < t, z3.Not(z3.Select(A, i))), l_at(temp, i - cnt(A, i)) == l_at(items, i)),
+                                 patterns=[l_at(items, i), z3.Select(A, i)])),
+        ] + dbinv_no_temp(c.self)
+
+    @staticmethod
+    def _inv_index(c):
+        t = c.loop(0).t
+        A = c.Asel.t
+        U = c.updated_items.t
+        i = z3.Int(fresh_name("i"))
+        return [("index_answer_is_selection", c.index_rst.t["_items"].t == A),
+                ("index_unchanged", c.self.t["_index"].t["_S"].t == c.old.self.t["_index"].t["_S"].t),
+                ("j_counts", c.j.t == cnt(A, t)),
+                ("new_position", c.new_position.t == t - cnt(A, t)),
+                ("position_map", forall([i], z3.And(z3.Select(d_dom(U), i) == z3.And(0 <= i, i < t, z3.Not(z3.Select(A, i)), cnt(A, i) != 0),
+                                                    z3.Implies(z3.Select(d_dom(U), i), z3.Select(d_val(U), i) == i - cnt(A, i))),
+                                        patterns=[z3.Select(d_dom(U), i), z3.Select(d_val(U), i)])),
+                ] + _remove_helper._common(c, t)
+
+    @staticmethod
+    def _inv_scan(c):
+        return _remove_helper._common(c, c.loop(1).t)
+
+    loops = {0: dict(inv=lambda c: _remove_helper._inv_index(c)), 1: dict(inv=lambda c: _remove_helper._inv_scan(c))}
+
+
+WRITE_RAISES = {"OSError": staticmethod(lambda c: dict(when=z3.Not(z3.And(c.self.t["_storage"].t["readable"].t, c.self.t["_storage"].t["writable"].t))))}
+
+
+@contract(_TF + "remove")
+class _remove(Contract):
+    """C02 (public entry): as _remove_helper, with the full database invariant re-established."""
+    params = dict(self=DB, query=Q, measurement=OStr)
+    defaults = dict(measurement=NONE_STR)
+    ret = TInt
+    modifies = ("_storage", "_index", "_measurements")
+    theories = ("queries", "dbqueries", "count")
+    raises = WRITE_RAISES
+
+    @staticmethod
+    def requires(c):
+        return dbinv(c.self) + _wfquery(c)
+
+    @staticmethod
+    def ghost_defs(c):
+        A, facts = selected_set(c.self, c.query, c.measurement)
+        return {"Asel": (A, facts)}
+
+    @staticmethod
+    def ensures(c):
+        items0 = c.old.self.t["_storage"].t["items"].t
+        items1 = c.self.t["_storage"].t["items"].t
+        A = c.Asel.t
+        return [("returns_number_selected", c.result.t == card(A)),
+                ("nothing_selected_changes_nothing", z3.Implies(card(A) == 0, items1 == items0))] + removed_view(items1, items0, A) + dbinv(c.self)
+
+
+@contract(_TF + "remove_all")
+class _remove_all(Contract):
+    params = dict(self=DB)
+    modifies = ("_storage", "_index", "_measurements")
+    raises = {"OSError": staticmethod(lambda c: dict(when=z3.Not(c.self.t["_storage"].t["writable"].t)))}
+
+    @staticmethod
+    def requires(c):
+        return dbinv(c.self)
+
+    @staticmethod
+    def ensures(c):
+        return [("storage_empty", l_len(c.self.t["_storage"].t["items"].t) == 0)] + dbinv(c.self)
+
+
+@contract(_TF + "drop_measurement")
+class _drop_measurement(Contract):
+    """C02: drop_measurement(name) removes exactly the points whose measurement is name."""
+    params = dict(self=DB, name=TStr)
+    ret = TInt
+    modifies = ("_storage", "_index", "_measurements")
+    theories = ("queries", "dbqueries", "count")
+    raises = WRITE_RAISES
+
+    @staticmethod
+    def requires(c):
+        return dbinv(c.self)
+
+    @staticmethod
+    def ghost_defs(c):
+        OS = TOpt(TStr)
+        A, facts = selected_set(c.self, Val(Q, q_meas_eq(c.name.t)), Val(OS, o_some(OS, c.name.t)))
+        return {"Asel": (A, facts)}
+
+    @staticmethod
+    def ensures(c):
+        items0 = c.old.self.t["_storage"].t["items"].t
+        items1 = c.self.t["_storage"].t["items"].t
+        A = c.Asel.t
+        i = z3.Int(fresh_name("i"))
+        named = forall([i], z3.Select(A, i) == z3.And(0 <= i, i < l_len(items0), meas(dec(l_at(items0, i))) == c.name.t), patterns=[z3.Select(A, i)])
+        return [("dropped_are_exactly_the_named", named), ("returns_number_dropped", c.result.t == card(A))] + removed_view(items1, items0, A) + dbinv(c.self)
